@@ -5,6 +5,7 @@ import (
 	"encoding/json"
 	"fmt"
 	"reflect"
+	"strings"
 	"time"
 
 	"go.uber.org/dig"
@@ -37,6 +38,27 @@ func Label(req *Request) interface{} {
 		return &LabelRes{Text: dig.VerifGroupAttributes(t, req.Name, req.Err)}
 	}
 	return &LabelRes{Text: dig.VerifResultAttributes(t, req.Name, req.Group)}
+}
+
+// Tag answers a tag request with dig's own parsers and validators.
+func Tag(req *Request) interface{} {
+	switch req.What {
+	case "group":
+		n, fl, so, e := dig.VerifParseGroup(req.S)
+		if e != "" {
+			return &TagRes{Err: e}
+		}
+		return &TagRes{Name: n, Flatten: fl, Soft: so}
+	case "optional", "ignore-unexported":
+		b, e := dig.VerifBoolTag(req.What, req.S)
+		if e != "" {
+			return &TagRes{Err: e}
+		}
+		return &TagRes{Val: b}
+	case "opts":
+		return &TagRes{Err: dig.VerifValidateNameGroup(req.Name, req.Group)}
+	}
+	return FatalRes("bad-request", "tag: unknown what "+req.What)
 }
 
 // scope is either the root container or a child scope.
@@ -188,9 +210,23 @@ func (r *run) guarded(i int, or *OpRes, call func() error) {
 	err := call()
 	if err != nil {
 		r.errs[i] = err
+		readAsCallerWould(err)
 		or.V = verdictErr{r.classify(err)}
 	} else {
 		or.V = "ok"
+	}
+}
+
+// readAsCallerWould formats an error in the three ways callers do. dig's error types implement fmt.Formatter; a panic in
+// there surfaces (through guarded) as a panic of dig's own.
+func readAsCallerWould(err error) {
+	for _, txt := range []string{err.Error(), fmt.Sprintf("%v", err), fmt.Sprintf("%+v", err)} {
+		if txt == "" {
+			panic("dig returned an error with an empty message")
+		}
+		if strings.Contains(txt, "(PANIC=") { // package fmt recovers a panicking Format / Error method and prints this instead
+			panic("formatting an error of dig panicked: " + txt)
+		}
 	}
 }
 
